@@ -140,6 +140,7 @@ void myth_alrm_sighandler(int signum,siginfo_t *sinfo,void* ctx);
 static void myth_setup_worker(int rank) {
   myth_running_env_t env = &g_envs[rank];
   env->rank = rank;
+  MYTH_VERIF_WORKER(rank);
   env->exit_flag = 0;
   memset(&env->prof_data, 0, sizeof(myth_prof_data));
   //Initialize allocators
@@ -153,6 +154,7 @@ static void myth_setup_worker(int rank) {
   myth_random_init(((unsigned)time(NULL)) + rank);
   //Initialize runqueue
   myth_queue_init(&env->runnable_q);
+  MYTH_VERIF_REGQ(rank, &env->runnable_q);
   myth_queue_clear(&env->runnable_q);
   //Initialize freelist for thread descriptor
 #if MYTH_SPLIT_STACK_DESC
@@ -358,12 +360,15 @@ MYTH_CTX_CALLBACK void myth_startpoint_exit_ex_1(void *arg1,void *arg2,void *arg
   myth_thread_t th=arg1;
   intptr_t rank=(intptr_t)arg2;
   (void)arg3;
+  MYTH_VERIF_EV2("CbEnter", 7, ((long)__builtin_frame_address(0) & 15));
+  MYTH_VERIF_EV2("FiniMigrate", VD(th), rank);
   myth_running_env_t target=&g_envs[rank];
   th->env=target;
   while (!myth_queue_trypass(&target->runnable_q,th)){
     target=myth_env_get_randomly();
     th->env=target;
   }
+  MYTH_VERIF_EV0("CbExit");
 }
 
 //Tell all the worker threads to terminate
@@ -612,6 +617,7 @@ static void myth_sched_loop(void)
   }
 #endif
   while (1) {
+    MYTH_VERIF_IDLE();
     //sched_yield();
     myth_thread_t next_run;
     //Get runnable thread
@@ -638,6 +644,7 @@ static void myth_sched_loop(void)
 	myth_dprintf("myth_sched_loop:switching to thread:%p\n",next_run);
 #endif
 	myth_assert(next_run->status==MYTH_STATUS_READY);
+	MYTH_VERIF_EV1("SchedRun", VD(next_run));
 	myth_swap_context(&env->sched.context, &next_run->context);
 #if MYTH_SCHED_LOOP_DEBUG
 	myth_dprintf("myth_sched_loop:returned from thread:%p\n",(void*)next_run);
